@@ -274,6 +274,11 @@ def list_elem_of(body, name, listname):
             if n.get("k") == "match" and sir.root_expr_name(n["e"]) in names:
                 for a in n["arms"]:
                     names.update(nm for nm, _p in sir.pat_bindings(a["pat"]))
+            # `let (k, v) = <expression built from an element>` / `let v = elem.value`
+            if n.get("k") == "local" and n.get("init") is not None and any(x.get("k") == "path" and len(x["segs"]) == 1 and x["segs"][0] in names and x["segs"][0] != listname for x in sir.walk(n["init"])):
+                names.update(nm for nm, _p in sir.pat_bindings(n["pat"]))
+            if n.get("k") == "if" and n["cond"].get("k") == "let" and sir.root_expr_name(n["cond"]["e"]) in names:
+                names.update(nm for nm, _p in sir.pat_bindings(n["cond"]["pat"]))
     return name in names
 
 
@@ -344,24 +349,39 @@ def runtime_rule(ctx):
         obs.append(ob("C06.runtime/notinpath", False, "proc_gen/expr.rs", "PathAnalysisState::to_path_analysis_str not found"))
     else:
         f = pa[0]
-        okc = False
-        d = "no NotInPath arm"
-        for n in sir.walk(f.body):
-            if n.get("k") == "arm" and "NotInPath" in sir.pat_variants(n["pat"]):
-                ifs = [x for x in sir.walk(n["body"]) if x.get("k") == "if"]
-                if ifs:
-                    c = sir.expr_str(ifs[0]["cond"]).replace(" ", "")
-                    d = c
-                    et = sir.emptiness_test(ifs[0]["cond"])
-                    if et and et[0] == "sub_p" and ifs[0].get("else") is not None:
-                        nonempty_branch = ifs[0]["then"] if et[1] else ifs[0]["else"]
-                        empty_branch = ifs[0]["else"] if et[1] else ifs[0]["then"]
+        import guards as gd
+        G = gd.guards_of(f.body)
 
-                        def reports(b):
-                            return any(x.get("k") == "call" and sir.call_name(x) == "Some" for x in sir.walk(b)) and any((sir.write_fmt_call(x) or (None, []))[1] == [("lit", "undefined")] for x in sir.walk(b))
-                        okc = reports(nonempty_branch) and not reports(empty_branch)
-        obs.append(ob("C06.runtime/notinpath", okc, ctx.where(f), "a computed operand that read at least one path still reports a (truthy-testable) state: condition `%s`" % d,
-                      witness=None if okc else "<t is=\"x\" data=\"{{ bb: a + 1 }}\"/> : marking only `a` does not reach the sub-template"))
+        def ctx_of(n):
+            """(is in the NotInPath case, sub_p known non-empty?) from the dominating conditions of node n"""
+            nip = False
+            ne = None
+            for kind, subj, pol in G.get(id(n), []):
+                if kind == "pat" and pol and "NotInPath" in subj[1]:
+                    nip = True
+                if kind == "cond":
+                    et = sir.emptiness_test(subj)
+                    if et and et[0].endswith("sub_p"):
+                        ne = (et[1] == pol)
+                    elif et is None and "sub_p.len()" in sir.expr_str(subj).replace(" ", ""):
+                        ne = "other"  # a length test that is not `non-empty` (e.g. `len() > 1`)
+            return nip, ne
+        writes = [n for n in sir.walk(f.body) if (sir.write_fmt_call(n) or (None, []))[1] == [("lit", "undefined")]]
+        nones = [n for n in sir.walk(f.body) if n.get("k") == "path" and n.get("s") == "None" and ctx_of(n)[0]]
+        okc = None
+        d = "a form this rule does not read"
+        if writes:
+            st = [ctx_of(n) for n in writes]
+            d = "`undefined` is reported %s; nothing is reported %s" % (["in the computed case, sub-paths non-empty=%s" % ne for _nip, ne in st], ["sub-paths non-empty=%s" % ctx_of(n)[1] for n in nones])
+            if all(nip and ne is True for nip, ne in st) and nones and all(ctx_of(n)[1] is False for n in nones):
+                okc = True
+            elif any(ne in (False, "other") for _nip, ne in st) or any(ctx_of(n)[1] in (True, "other") for n in nones):
+                okc = False
+        elif not any("undefined" in sir.expr_str(n) for n in sir.walk(f.body)):
+            okc = False
+            d = "a computed operand never reports a state"
+        obs.append(ob("C06.runtime/notinpath", okc, ctx.where(f), "a computed operand that read at least one path still reports a (truthy-testable) state: %s" % d,
+                      witness=None if okc is not False else "<t is=\"x\" data=\"{{ bb: a + 1 }}\"/> : marking only `a` does not reach the sub-template"))
         pre = any(n.get("k") == "call" and (sir.call_path(n) or "").endswith("to_path_analysis_str_group_prefix") for n in sir.walk(f.body))
         obs.append(ob("C06.runtime/group-prefix", pre, ctx.where(f), "the accumulated sub-paths are emitted as a `!!(..||..)||` prefix: %s" % pre))
     return obs
